@@ -4,6 +4,7 @@ from __future__ import annotations
 import io
 import json
 import os
+import random
 from concurrent.futures import ThreadPoolExecutor
 
 from .. import env, framing, impl, producer, report, terms, tlc, universes as U, wire, writer
@@ -117,7 +118,11 @@ def main(tier: str) -> int:
                               f"the complete (uncut) stream {label} does not parse: {exc}", {"stream": label, "hex": data.hex()[:2000]})
                 continue
             full = [norm(x) for x in full]
-            for cut in range(0, len(data) + 1):
+            cuts = range(0, len(data) + 1)
+            if len(data) > 4000:        # long streams: every frame boundary and its neighbourhood (incl. all length-prefix bytes) + a sample of payload offsets
+                near = {c for e in [0] + ends for c in range(e - 2, e + 5) if 0 <= c <= len(data)}
+                cuts = sorted(near | set(random.Random(seed + len(data)).sample(range(len(data) + 1), 1500)))
+            for cut in cuts:
                 got, exc = drain(integ, data[:cut])
                 gotn = [norm(x) for x in got]
                 rec = {"id": len(records), "ends": ends, "counts": counts, "cut": cut, "yielded": len(gotn),
